@@ -21,17 +21,21 @@ static void ref_num(u8 kind, u8 flags, u8 width, u8 prec, u64 v)
 	if (flags & 2) *p++ = '0';
 	if (width) p += sprintf(p, "%u", width);
 	if (prec != 0xff) p += sprintf(p, ".%u", prec);
-	if (kind == 'f') {
-		union { float f; u32 b; } cv;
-		cv.b = (u32) v;
-		*p++ = 'f'; *p = 0;
-		printf(fmt, (double) cv.f);
-		return;
-	}
 	*p++ = 'l';
 	*p++ = (kind == 'd') ? 'd' : (kind == 'u') ? 'u' : 'x';
 	*p = 0;
 	if (kind == 'd') printf(fmt, (long) v); else printf(fmt, (unsigned long) v);
+}
+static void ref_flt(u8 flags, u8 width, u8 prec, float v)
+{
+	char fmt[32], *p = fmt;
+	*p++ = '%';
+	if (flags & 1) *p++ = '-';
+	if (flags & 2) *p++ = '0';
+	if (width) p += sprintf(p, "%u", width);
+	if (prec != 0xff) p += sprintf(p, ".%u", prec);
+	*p++ = 'f'; *p = 0;
+	printf(fmt, (double) v);
 }
 static const struct tm *ref_localtime(u32 stamp) { time_t t = (time_t) stamp; return localtime(&t); }
 #include "ref_list.h"
